@@ -178,3 +178,12 @@ Lemma ex_altkey_p :
   /\ rewrite_all u_current ex_fdb [("instrument", VStr "Cam"); ("detector", VInt 0)] [("detector", [("full_name", VStr "det1")])]
      = RWErr RWInconsistent.
 Proof. repeat split; vm_compute; reflexivity. Qed.
+
+(* expandDataId(DataCoordinate, dimensions=...) when the DataCoordinate has no value for a requested dimension: the
+   `mapping.subset(dimensions)` short-cut of standardize lets subset's bare KeyError through (finding
+   F-C13-expand-dc-keyerror); the same request spelled with a dict is the documented DimensionNameError *)
+Lemma expand_dc_keyerror_refuted_p :
+  exists d e, standardize u_current None [("instrument", VStr "Cam")] [] [] = Ok d /\
+    expand_data_id_dc_x u_current ex_db [] (Some ["detector"]) d [] [] = Err e /\ documented e = false /\
+    expand_data_id_x u_current ex_db [] (Some ["detector"]) [("instrument", VStr "Cam")] [] [] = Err EDimensionName.
+Proof. eexists. exists EKeyError. split; [vm_compute; reflexivity|]. repeat split; vm_compute; reflexivity. Qed.
